@@ -82,3 +82,23 @@ Lemma lock_discipline_refuted :
     exists a1 a2, In a1 lock_table /\ In a2 lock_table /\ a_write a1 = true /\ (a_var a1, a_site a1) = vw /\
                   conflicting a1 a2 = true /\ protected a1 a2 = false.
 Proof. exact (refuted_sound _ _ table_refuted). Qed.
+
+(* ---------------------------------------------------------------- the code as found *)
+
+(* four rows of the table translate/locks produced before commit c8404ce (the rest of that table is
+   the present one): UpdateManagedKeystores touched the keystore cache without km.mu, and
+   updateManagedAddress wrote the address table without a.mu *)
+Definition found_excerpt : list access := [
+  ("KeystoreManager.managedKeystores", "KeystoreManager.updateManagedKeystore", true, "K", []);
+  ("KeystoreManager.managedKeystores", "KeystoreManager.ListKeystoreNames", false, "H",
+     [("KeystoreManager.mu", true); ("handshake", true)]);
+  ("AddrManager.addrs", "AddrManager.updateManagedAddress", true, "A",
+     [("KeystoreManager.mu", true); ("WalletManager.mu", true)]);
+  ("AddrManager.addrs", "AddrManager.Address", false, "K", [("AddrManager.mu", true); ("handshake", true)])
+].
+
+Lemma found_refuted :
+  unprotected_writers found_excerpt =
+    [("KeystoreManager.managedKeystores", "KeystoreManager.updateManagedKeystore");
+     ("AddrManager.addrs", "AddrManager.updateManagedAddress")].
+Proof. vm_compute. reflexivity. Qed.
